@@ -361,6 +361,21 @@ def coqproject_text() -> str:
             + "\n".join(files) + "\n")
 
 
+ESCALATE = 4
+_BASELINE = None
+
+
+def _baseline_hashes() -> dict:
+    global _BASELINE
+    if _BASELINE is None:
+        p = VERIF / "harness" / "baseline_hashes.json"
+        try:
+            _BASELINE = json.loads(p.read_text())
+        except Exception:  # noqa
+            _BASELINE = {}
+    return _BASELINE
+
+
 class Ctx:
     def __init__(self, prop: str, tier: str, seed: int):
         self.prop = prop
@@ -407,6 +422,8 @@ class Ctx:
         return self.tier == "quick"
 
     def budget(self, quick: int, thorough: int) -> int:
+        if self.quick and self.escalated and thorough > quick:
+            return min(thorough, quick * ESCALATE)
         return quick if self.quick else thorough
 
     def dist(self, key: str, n: int = 1):
@@ -427,7 +444,20 @@ class Ctx:
             self.cov["samples"].append(obj)
 
     def hash_sources(self, rel: str, names: list[str] | None = None):
-        self.cov["source_ast_hashes"][rel] = ast_hash(SRC / "quantem" / rel, names)
+        """drift guard (DESIGN 3.3): hash the normalised AST of the anchored definitions; when it differs
+        from the baseline recorded for the unchanged tree (harness/baseline_hashes.json) the quick tier
+        spends a larger case budget — that is where a property-breaking edit would be"""
+        h = ast_hash(SRC / "quantem" / rel, names)
+        self.cov["source_ast_hashes"][rel] = h
+        base = _baseline_hashes().get(self.prop, {}).get(rel)
+        if base is not None:
+            changed = sorted(k for k in h if base.get(k) != h[k])
+            if changed:
+                self.escalated = True
+                self.cov.setdefault("drift", {})[rel] = changed
+                self.log("drift guard: %s changed in %s -> quick budget escalated x%d" % (changed[:6], rel, ESCALATE))
+
+    escalated = False
 
     # -------------------------------------------------------------------- Coq build
     def _ensure_makefile(self):
